@@ -445,7 +445,7 @@ class Engine:
             return s2
 
         if log:
-            return [finish(st, f.call_expr(b, t, args))]
+            return [finish(st, f.call_expr(b, t, args, 0, False))]
         outs = None
         if self.inline_closures:
             outs = self.combinator(f, st, b, t, generic, callee, args, depth, stack)
@@ -456,7 +456,7 @@ class Engine:
                 if summ:
                     outs = [(sp, list(args)) for sp in summ]
         if outs is None:
-            val = f.call_expr(b, t, args)
+            val = f.call_expr(b, t, args, 0, False)
             if not (val[0] != "call" or generic in TRANSPARENT_CALLS):
                 st.events.append(Ev(f, b, t, callee if t["res"] not in ("unresolved", "virtual") else generic, generic, args, val, depth, False, st.tick()))
             return [finish(st, val)]
